@@ -20,7 +20,7 @@ REL = "inference/pdf/hdi.py"
 FLOORS = {"input-layout": 1, "float-arithmetic": 1, "ownership": 1, "window-offset": 3, "axis-discipline": 5, "endpoints-are-samples": 1}
 
 
-NEUTRAL_CALLS = {"array", "asarray", "asanyarray", "copy", "ascontiguousarray", "atleast_1d", "deepcopy"}
+NEUTRAL_CALLS = {"array", "asarray", "asanyarray", "copy", "ascontiguousarray", "asfortranarray", "atleast_1d", "deepcopy"}
 NEUTRAL_KW = {"dtype", "copy", "order"}
 
 
@@ -29,6 +29,12 @@ def _layout_ops(v, pname):
     conversions (each can change which axis holds the draws), or None if the parameter is not reached."""
     ops = []
     while True:
+        if isinstance(v, ast.IfExp):
+            # a two-way conversion: both ways must reduce; their layout operations are pooled (tagged by the way taken)
+            a, b = _layout_ops(v.body, pname), _layout_ops(v.orelse, pname)
+            if a is None or b is None:
+                return None
+            return ops + ([f"if {U(v.test)}: {a}"] if a else []) + ([f"if not {U(v.test)}: {b}"] if b else [])
         if isinstance(v, ast.Name):
             return ops if v.id == pname else None
         if isinstance(v, ast.Call):
